@@ -135,12 +135,12 @@ theorem cCOMPLETE : Src.c_HUFFMAN_COMPLETE = 1 := rfl
 theorem table_is_generated : Src.c_HUFFMAN_TABLE = Gen.huffTable.flatten.map castT := rfl
 
 /-- the translated loop body is two table look-ups (high nibble, low nibble) and the recursive call -/
-theorem for1_cons (tbl : Impl.Tbl) (htbl : Src.c_HUFFMAN_TABLE = tbl.flatten.map castT)
+theorem for1_cons (tbl : Impl.Tbl) (htbl : Src.c_HUFFMAN_TABLE = tbl.flatten.map castT) (fuel : Nat)
     (b : UInt8) (bs : List UInt8) (state flags : Int) (dec : List UInt8) :
-    Src.decode_huffman.for1 (b :: bs) state flags dec =
+    Src.decode_huffman.for1 fuel (b :: bs) state flags dec =
       Except.bind (srcNibble tbl state ((b.toNat >>> 4 : Nat) : Int) dec) fun r1 =>
         Except.bind (srcNibble tbl r1.1 (Py.band (b.toNat : Int) 15) r1.2.2) fun r2 =>
-          Src.decode_huffman.for1 bs r2.1 r2.2.1 r2.2.2 := by
+          Src.decode_huffman.for1 fuel bs r2.1 r2.2.1 r2.2.2 := by
   rw [Src.decode_huffman.for1]
   have hs : Py.shr (b.toNat : Int) 4 = .ok ((b.toNat >>> 4 : Nat) : Int) := shr_ofNat _ 4
   simp only [hs, bind, ok_bind, err_bind, bind_ite, bind_bind, srcNibble, htbl, cFAIL, cEMIT]
@@ -165,16 +165,16 @@ theorem gen_outOK : OutOK Gen.huffTable := by
 def castL (r : Nat × List Nat) : Int × List UInt8 := ((r.1 : Int), r.2.map UInt8.ofNat)
 
 /-- the octet loop: translated `for input_byte in huffman_string` = `Impl.loop`, from every state -/
-theorem for1_tie (tbl : Impl.Tbl) (htbl : Src.c_HUFFMAN_TABLE = tbl.flatten.map castT) (hu : Uniform tbl) (ho : OutOK tbl) :
+theorem for1_tie (tbl : Impl.Tbl) (htbl : Src.c_HUFFMAN_TABLE = tbl.flatten.map castT) (hu : Uniform tbl) (ho : OutOK tbl) (fuel : Nat) :
     ∀ (w : List UInt8) (state flags : Nat) (out : List Nat),
-    (Src.decode_huffman.for1 w (state : Int) (flags : Int) (out.map UInt8.ofNat)).map (fun r => (r.2.1, r.2.2)) =
+    (Src.decode_huffman.for1 fuel w (state : Int) (flags : Int) (out.map UInt8.ofNat)).map (fun r => (r.2.1, r.2.2)) =
       resToR (mapRes castL (Impl.loop tbl w state flags out)) := by
   intro w
   induction w with
   | nil => intro state flags out; simp only [Src.decode_huffman.for1, Impl.loop, Except.map, resToR, mapRes, castL]
   | cons b bs ih =>
     intro state flags out
-    rw [for1_cons tbl htbl]
+    rw [for1_cons tbl htbl fuel]
     have hb : b.toNat < 256 := b.toNat_lt
     have hx1 : b.toNat >>> 4 = b.toNat / 16 := by simp [Nat.shiftRight_eq_div_pow]
     have hx2 : Py.band (b.toNat : Int) 15 = ((b.toNat % 16 : Nat) : Int) := by
@@ -212,23 +212,23 @@ theorem decode_huffman_tie_gen (tbl : Impl.Tbl) (htbl : Src.c_HUFFMAN_TABLE = tb
   | cons b bs =>
     have hne : ¬ ¬ ((b :: bs) ≠ []) := by simp
     simp only [hne, if_false, List.isEmpty_cons, Bool.false_eq_true]
-    have h : (Src.decode_huffman.for1 (b :: bs) 0 0 []).map (fun r => (r.2.1, r.2.2)) =
-        resToR (mapRes castL (Impl.loop tbl (b :: bs) 0 0 [])) := for1_tie tbl htbl hu ho (b :: bs) 0 0 []
+    have h : (Src.decode_huffman.for1 fuel (b :: bs) 0 0 []).map (fun r => (r.2.1, r.2.2)) =
+        resToR (mapRes castL (Impl.loop tbl (b :: bs) 0 0 [])) := for1_tie tbl htbl hu ho fuel (b :: bs) 0 0 []
     cases hl : Impl.loop tbl (b :: bs) 0 0 [] with
     | decodingError =>
       rw [hl] at h
-      cases hs : Src.decode_huffman.for1 (b :: bs) 0 0 [] with
+      cases hs : Src.decode_huffman.for1 fuel (b :: bs) 0 0 [] with
       | error e => rw [hs] at h; simp [Except.map, resToR, mapRes] at h; subst h; rfl
       | ok r => rw [hs] at h; simp [Except.map, resToR, mapRes] at h
     | indexError =>
       rw [hl] at h
-      cases hs : Src.decode_huffman.for1 (b :: bs) 0 0 [] with
+      cases hs : Src.decode_huffman.for1 fuel (b :: bs) 0 0 [] with
       | error e => rw [hs] at h; simp [Except.map, resToR, mapRes] at h; subst h; rfl
       | ok r => rw [hs] at h; simp [Except.map, resToR, mapRes] at h
     | ok r =>
       obtain ⟨fl, out⟩ := r
       rw [hl] at h
-      cases hs : Src.decode_huffman.for1 (b :: bs) 0 0 [] with
+      cases hs : Src.decode_huffman.for1 fuel (b :: bs) 0 0 [] with
       | error e => rw [hs] at h; simp [Except.map, resToR, mapRes] at h
       | ok r' =>
         obtain ⟨s', f', d'⟩ := r'
